@@ -1326,6 +1326,21 @@ def step (s : State) (toks : List String) : State × String :=
       let s' := if cs.contains 'u' || cs.contains 'l' then sendThrough s _client "C14Who" [] true else s
       (s', s!"len={res.2.1.length} " ++ " ".intercalate cells ++ (if res.2.2 = 0 then " noerr" else " err"))
     | none => (s, "bad-op")
+  | ["crowd", n, buf] =>
+    -- n more clients connect to the service (`C14Echo`), each sends this request, gets its reply and
+    -- stays connected, idle, to the end of the case.  Nothing bounds the number of open connections
+    -- (`c14_open_connections_unbounded`): every one is served like the first
+    match n.toNat?, Util.unhex buf with
+    | some n, some b =>
+      if n = 0 then (s, "bad-op") else
+      let rec goCrowd : Nat → State → String → State × String
+        | 0, st, txt => (st, txt)
+        | k + 1, st, txt =>
+          let r := wsShow st "C14Echo" b
+          goCrowd k r.1 (if txt = "" || txt = r.2 then r.2 else "differ")
+      let r := goCrowd n s ""
+      (r.1, s!"n={n} " ++ r.2)
+    | _, _ => (s, "bad-op")
   | ["reg", api, sig] =>
     -- a registration attempt with the function named `sig` of the harness's table (c14.go `c14sigs`)
     match sigOf sig, api.splitOn ":" with
